@@ -22,7 +22,10 @@ use routee_compass_core::model::access::default::turn_delays::edge_heading::Edge
 use routee_compass_core::model::network::{Edge, EdgeId, Graph, NetworkError, Vertex, VertexId};
 use routee_compass_core::model::traversal::default::speed_traversal_engine::SpeedTraversalEngine;
 use routee_compass_core::model::unit::as_f64::AsF64;
-use routee_compass_core::model::unit::{Grade, SpeedUnit};
+use crate::jsonproto::{enc, hex};
+use routee_compass::app::compass::config::compass_configuration_error::CompassConfigurationError;
+use routee_compass::app::compass::config::graph_builder::DefaultGraphBuilder;
+use routee_compass_core::model::unit::{Grade, Speed, SpeedUnit};
 use routee_compass_core::util::fs::{read_decoders, read_utils};
 use std::io::Write;
 use std::path::{Path, PathBuf};
@@ -40,6 +43,8 @@ struct ERow {
     bad: Option<(usize, String)>,
     /// the row has one field too few
     short: bool,
+    /// another spelling of one cell that decodes to the same value ("+3", "007", "1e999" for inf)
+    alt: Option<(usize, String)>,
 }
 
 #[derive(Clone, Debug)]
@@ -49,6 +54,7 @@ struct VRow {
     y: f32,
     bad: Option<(usize, String)>,
     short: bool,
+    alt: Option<(usize, String)>,
 }
 
 #[derive(Clone, Debug)]
@@ -74,6 +80,27 @@ struct Enc {
     absent: bool,
     /// the file is written with no content at all (not even a header)
     empty: bool,
+    /// the text starts with a UTF-8 byte order mark
+    bom: bool,
+    /// number of gzip members the text is spread over (RFC 1952 allows several; 1 is the usual file)
+    members: usize,
+    /// the gzip stream is cut short
+    cut: Option<Cut>,
+    /// the file name is not valid UTF-8
+    nonutf8_name: bool,
+}
+
+/// where a gzip file is cut short
+#[derive(Clone, Copy, Debug, PartialEq)]
+enum Cut {
+    /// keep this many bytes (2 ..= 9) of the ten-byte gzip header
+    Header(usize),
+    /// keep the header and this many bytes (0 ..= 10) of the first deflate block
+    Early(usize),
+    /// keep this many thousandths of the stream
+    Frac(usize),
+    /// drop this many bytes (1 ..= 8) of the CRC / length trailer
+    Trailer(usize),
 }
 
 impl Enc {
@@ -92,6 +119,10 @@ impl Enc {
             misnamed: false,
             absent: false,
             empty: false,
+            bom: false,
+            members: 1,
+            cut: None,
+            nonutf8_name: false,
         }
     }
     fn random(rng: &mut Rng, n_named: usize, permute: bool) -> Enc {
@@ -114,11 +145,15 @@ impl Enc {
             misnamed: false,
             absent: false,
             empty: false,
+            bom: rng.chance(1, 8),
+            members: if rng.chance(1, 5) { 2 + rng.below(3) } else { 1 },
+            cut: None,
+            nonutf8_name: false,
         }
     }
     fn descr(&self) -> String {
         format!(
-            "{}{}{}b{}o{}x{}{}{}{}{}{}{}",
+            "{}{}{}b{}o{}x{}{}{}{}{}{}{}{}{}{}{}",
             if self.gz { "gz" } else { "pl" },
             if self.cr_only { "R" } else if self.crlf { "C" } else { "L" },
             if self.final_newline { "N" } else { "n" },
@@ -134,6 +169,16 @@ impl Enc {
             if self.absent { "A" } else { "" },
             if self.empty { "E" } else { "" },
             if self.misnamed { "M" } else { "" },
+            if self.bom { "B" } else { "" },
+            if self.members > 1 { format!("m{}", self.members) } else { String::new() },
+            match self.cut {
+                Some(Cut::Header(k)) => format!("cH{}", k),
+                Some(Cut::Early(k)) => format!("cE{}", k),
+                Some(Cut::Frac(k)) => format!("cF{}", k),
+                Some(Cut::Trailer(k)) => format!("cT{}", k),
+                None => String::new(),
+            },
+            if self.nonutf8_name { "U" } else { "" },
         )
     }
 }
@@ -188,7 +233,11 @@ fn render(rng: &mut Rng, cols: &[&str], rows: &[(Vec<String>, bool)], enc: &Enc)
         }
         lines.push(out.join(","));
     }
-    let mut text = lines.join(nl);
+    let mut text = String::new();
+    if enc.bom {
+        text.push('\u{feff}');
+    }
+    text.push_str(&lines.join(nl));
     if enc.final_newline {
         text.push_str(nl);
         for _ in 0..enc.trailing_blank {
@@ -211,16 +260,58 @@ fn text_lines(text: &str) -> usize {
     }
 }
 
-fn write_file(path: &Path, text: &str, gz: bool) {
-    let f = std::fs::File::create(path).expect("create scratch file");
-    if gz {
-        let mut enc = flate2::write::GzEncoder::new(f, flate2::Compression::default());
-        enc.write_all(text.as_bytes()).expect("gz write");
-        enc.finish().expect("gz finish");
-    } else {
-        let mut f = f;
-        f.write_all(text.as_bytes()).expect("write");
+fn gz_member(bytes: &[u8]) -> Vec<u8> {
+    let mut enc = flate2::write::GzEncoder::new(Vec::new(), flate2::Compression::default());
+    enc.write_all(bytes).expect("gz write");
+    enc.finish().expect("gz finish")
+}
+
+/// the bytes of a gzip file holding `text` in `members` members (split at arbitrary byte positions,
+/// also inside a line), cut short as asked
+fn gz_bytes(text: &str, members: usize, cut: Option<Cut>) -> Vec<u8> {
+    let raw = text.as_bytes();
+    let m = members.max(1);
+    let mut out: Vec<u8> = vec![];
+    for k in 0..m {
+        let a = raw.len() * k / m;
+        let b = raw.len() * (k + 1) / m;
+        out.extend(gz_member(&raw[a..b]));
     }
+    let keep = match cut {
+        None => out.len(),
+        Some(Cut::Header(k)) => k.min(out.len()),
+        Some(Cut::Early(k)) => (10 + k).min(out.len() - 1),
+        Some(Cut::Frac(k)) => (out.len() * k / 1000).clamp(2, out.len() - 1),
+        Some(Cut::Trailer(k)) => out.len() - k.clamp(1, 8),
+    };
+    out.truncate(keep);
+    out
+}
+
+fn write_bytes(path: &Path, bytes: &[u8]) {
+    let mut f = std::fs::File::create(path).expect("create scratch file");
+    f.write_all(bytes).expect("write");
+}
+
+fn write_file(path: &Path, text: &str, gz: bool) {
+    if gz {
+        write_bytes(path, &gz_bytes(text, 1, None));
+    } else {
+        write_bytes(path, text.as_bytes());
+    }
+}
+
+fn write_enc(path: &Path, text: &str, gz: bool, enc: &Enc) {
+    if gz {
+        write_bytes(path, &gz_bytes(text, enc.members, enc.cut));
+    } else {
+        write_bytes(path, text.as_bytes());
+    }
+}
+
+/// the csv reader finds a header row: some byte other than a line terminator (after the BOM)
+fn has_header(text: &str) -> bool {
+    text.trim_start_matches('\u{feff}').bytes().any(|b| b != b'\n' && b != b'\r')
 }
 
 fn f32_text(x: f32) -> String {
@@ -229,6 +320,9 @@ fn f32_text(x: f32) -> String {
 
 fn e_cells(r: &ERow) -> (Vec<String>, bool) {
     let mut c = vec![r.id.to_string(), r.src.to_string(), r.dst.to_string(), format!("{}", r.dist)];
+    if let Some((k, t)) = &r.alt {
+        c[*k] = t.clone();
+    }
     if let Some((k, t)) = &r.bad {
         c[*k] = t.clone();
     }
@@ -237,6 +331,9 @@ fn e_cells(r: &ERow) -> (Vec<String>, bool) {
 
 fn v_cells(r: &VRow) -> (Vec<String>, bool) {
     let mut c = vec![r.id.to_string(), f32_text(r.x), f32_text(r.y)];
+    if let Some((k, t)) = &r.alt {
+        c[*k] = t.clone();
+    }
     if let Some((k, t)) = &r.bad {
         c[*k] = t.clone();
     }
@@ -255,6 +352,8 @@ struct Case {
     n_v: Option<usize>,
     e_enc: Enc,
     v_enc: Enc,
+    /// the `verbose` argument of `Graph::from_files` (two log lines; never the result)
+    verbose: Option<bool>,
 }
 
 impl Case {
@@ -280,6 +379,8 @@ impl Case {
             && !self.v_enc.empty
             && !self.e_enc.cr_only
             && !self.v_enc.cr_only
+            && self.e_enc.cut.is_none()
+            && self.v_enc.cut.is_none()
             && self.n_v.map(|n| n == nv).unwrap_or(true)
     }
 }
@@ -296,6 +397,20 @@ struct Written {
     v_path: PathBuf,
     e_lines: usize,
     v_lines: usize,
+    e_header: bool,
+    v_header: bool,
+}
+
+fn scratch_name(dir: &Path, name: String, nonutf8: bool) -> PathBuf {
+    if nonutf8 {
+        use std::os::unix::ffi::OsStringExt;
+        let mut b = name.into_bytes();
+        b.insert(0, 0xff);
+        b.insert(1, 0xfe);
+        dir.join(std::ffi::OsString::from_vec(b))
+    } else {
+        dir.join(name)
+    }
 }
 
 /// writes the two files of a case (with the given gzip flags) and returns paths and line counts
@@ -308,49 +423,75 @@ fn write_case(dir: &Path, tag: &str, rng_seed: &Rng, case: &Case, e_gz: bool, v_
     let v_text = render(&mut rng, &V_COLS, &v_rows, &case.v_enc);
     let e_name_gz = e_gz != case.e_enc.misnamed;
     let v_name_gz = v_gz != case.v_enc.misnamed;
-    let e_path = dir.join(format!("{}_edges.csv{}", tag, if e_name_gz { ".gz" } else { "" }));
-    let v_path = dir.join(format!("{}_vertices.csv{}", tag, if v_name_gz { ".gz" } else { "" }));
+    let e_path = scratch_name(dir, format!("{}_edges.csv{}", tag, if e_name_gz { ".gz" } else { "" }), case.e_enc.nonutf8_name);
+    let v_path = scratch_name(dir, format!("{}_vertices.csv{}", tag, if v_name_gz { ".gz" } else { "" }), case.v_enc.nonutf8_name);
     let _ = std::fs::remove_file(&e_path);
     let _ = std::fs::remove_file(&v_path);
     if !case.e_enc.absent {
-        write_file(&e_path, &e_text, e_gz);
+        write_enc(&e_path, &e_text, e_gz, &case.e_enc);
     }
     if !case.v_enc.absent {
-        write_file(&v_path, &v_text, v_gz);
+        write_enc(&v_path, &v_text, v_gz, &case.v_enc);
     }
     // the scan decides compression by content (like the csv reader), so the text alone fixes the count
-    Written { e_path, v_path, e_lines: text_lines(&e_text), v_lines: text_lines(&v_text) }
+    Written {
+        e_path,
+        v_path,
+        e_lines: text_lines(&e_text),
+        v_lines: text_lines(&v_text),
+        e_header: has_header(&e_text),
+        v_header: has_header(&v_text),
+    }
 }
 
-fn case_line(case: &Case, w: &Written) -> String {
-    let mut t: Vec<String> = vec!["load".into()];
-    t.push(format!("{}:{}:{}", case.kind, case.e_enc.descr(), case.v_enc.descr()));
-    t.push(opt_tok(case.n_e));
-    t.push(opt_tok(case.n_v));
+/// the two files as the model receives them: readable, text lines, header row found, rows
+fn file_spec_tokens(case: &Case, w: &Written) -> Vec<String> {
+    let mut t: Vec<String> = vec![];
     // edge file
-    t.push(if case.e_enc.absent { "0" } else { "1" }.into());
+    t.push(if case.e_enc.absent || case.e_enc.cut.is_some() { "0" } else { "1" }.into());
     t.push(w.e_lines.to_string());
+    t.push(if w.e_header { "1" } else { "0" }.into());
     let e_rows: Vec<&ERow> = if case.e_enc.empty || case.e_enc.absent { vec![] } else { case.edges.iter().collect() };
     t.push(e_rows.len().to_string());
     for r in e_rows {
         if case.e_bad(r) {
             t.push("b".into());
         } else {
-            t.push(format!("r {} {} {} {}", r.id, r.src, r.dst, fbits(r.dist)));
+            t.push(format!("r {} {} {} {}", r.id, r.src, r.dst, r.dist.to_bits()));
         }
     }
     // vertex file
-    t.push(if case.v_enc.absent { "0" } else { "1" }.into());
+    t.push(if case.v_enc.absent || case.v_enc.cut.is_some() { "0" } else { "1" }.into());
     t.push(w.v_lines.to_string());
+    t.push(if w.v_header { "1" } else { "0" }.into());
     let v_rows: Vec<&VRow> = if case.v_enc.empty || case.v_enc.absent { vec![] } else { case.vertices.iter().collect() };
     t.push(v_rows.len().to_string());
     for r in v_rows {
         if case.v_bad(r) {
             t.push("b".into());
         } else {
-            t.push(format!("r {} {} {}", r.id, fbits(r.x as f64), fbits(r.y as f64)));
+            t.push(format!("r {} {} {}", r.id, (r.x as f64).to_bits(), (r.y as f64).to_bits()));
         }
     }
+    t
+}
+
+fn case_line(case: &Case, w: &Written) -> String {
+    let mut t: Vec<String> = vec!["load".into()];
+    t.push(format!(
+        "{}:{}:{}:v{}",
+        case.kind,
+        case.e_enc.descr(),
+        case.v_enc.descr(),
+        match case.verbose {
+            None => "n",
+            Some(true) => "t",
+            Some(false) => "f",
+        }
+    ));
+    t.push(opt_tok(case.n_e));
+    t.push(opt_tok(case.n_v));
+    t.extend(file_spec_tokens(case, w));
     t.join(" ")
 }
 
@@ -392,10 +533,16 @@ fn triplets_out(l: Vec<(VertexId, EdgeId, VertexId)>) -> String {
     t.join(" ")
 }
 
+fn attrs_out(l: Vec<(&Vertex, &Edge, &Vertex)>) -> String {
+    let mut t = vec![l.len().to_string()];
+    t.extend(l.iter().map(|(a, e, b)| format!("{} {} {}", vertex_out(a), edge_out(e), vertex_out(b))));
+    t.join(" ")
+}
+
 fn graph_out(g: &Graph) -> String {
     let ne = g.n_edges();
     let nv = g.n_vertices();
-    let pv = nv.max(g.adj.len());
+    let pv = nv.max(g.adj.len()).max(g.rev.len());
     let mut t: Vec<String> = vec![
         "ok".into(),
         ne.to_string(),
@@ -425,6 +572,8 @@ fn graph_out(g: &Graph) -> String {
         t.push(nat_list(&g.incident_edges(&id, &Direction::Reverse)));
         t.push(ex_out(g.incident_triplet_ids(&id, &Direction::Forward), triplets_out));
         t.push(ex_out(g.incident_triplet_ids(&id, &Direction::Reverse), triplets_out));
+        t.push(ex_out(g.incident_triplet_attributes(&id, &Direction::Forward), attrs_out));
+        t.push(ex_out(g.incident_triplet_attributes(&id, &Direction::Reverse), attrs_out));
     }
     t.push("ids".into());
     t.push(nat_list(&g.edge_ids().collect::<Vec<_>>()));
@@ -434,9 +583,13 @@ fn graph_out(g: &Graph) -> String {
 }
 
 fn load(w: &Written, n_e: Option<usize>, n_v: Option<usize>) -> Result<Result<Graph, NetworkError>, String> {
+    load_v(w, n_e, n_v, Some(false))
+}
+
+fn load_v(w: &Written, n_e: Option<usize>, n_v: Option<usize>, verbose: Option<bool>) -> Result<Result<Graph, NetworkError>, String> {
     let e = w.e_path.clone();
     let v = w.v_path.clone();
-    std::panic::catch_unwind(move || Graph::from_files(&e, &v, n_e, n_v, Some(false))).map_err(|p| {
+    std::panic::catch_unwind(move || Graph::from_files(&e, &v, n_e, n_v, verbose)).map_err(|p| {
         if let Some(s) = p.downcast_ref::<String>() {
             s.clone()
         } else if let Some(s) = p.downcast_ref::<&str>() {
@@ -602,7 +755,7 @@ fn mk_vertices(rng: &mut Rng, n: usize) -> Vec<VRow> {
     (0..n)
         .map(|i| {
             let (x, y) = coord(rng);
-            VRow { id: i, x, y, bad: None, short: false }
+            VRow { id: i, x, y, bad: None, short: false, alt: None }
         })
         .collect()
 }
@@ -611,7 +764,7 @@ fn mk_edges(rng: &mut Rng, pairs: &[(usize, usize)]) -> Vec<ERow> {
     pairs
         .iter()
         .enumerate()
-        .map(|(i, &(s, d))| ERow { id: i, src: s, dst: d, dist: nice_dist(rng), bad: None, short: false })
+        .map(|(i, &(s, d))| ERow { id: i, src: s, dst: d, dist: nice_dist(rng), bad: None, short: false, alt: None })
         .collect()
 }
 
@@ -666,6 +819,74 @@ fn gen_pairs(rng: &mut Rng, nv: usize, big: bool) -> Vec<(usize, usize)> {
     pairs
 }
 
+/// lengths and coordinates that no road has but the number parsers accept (the loader stores what the
+/// file says: not-a-number, infinities, negative and zero lengths, values beyond the f32 range), and
+/// other spellings of ordinary numbers
+fn special_numbers(rng: &mut Rng, edges: &mut [ERow], vertices: &mut [VRow]) {
+    let dists: [(f64, Option<&str>); 12] = [
+        (f64::NAN, None),
+        (f64::INFINITY, None),
+        (f64::NEG_INFINITY, None),
+        (f64::INFINITY, Some("1e999")),
+        (0.0, Some("1e-999")),
+        (-5.25, None),
+        (0.0, None),
+        (-0.0, None),
+        (5e-324, None),
+        (1.7976931348623157e308, None),
+        (12.5, Some("+12.5")),
+        (1250.0, Some("1.25E3")),
+    ];
+    let coords: [(f32, Option<&str>); 10] = [
+        (f32::NAN, None),
+        (f32::INFINITY, None),
+        (f32::NEG_INFINITY, Some("-inf")),
+        (f32::INFINITY, Some("1e39")),
+        (0.0, Some("1e-50")),
+        (-0.0, None),
+        (-180.0, None),
+        (540.5, None),
+        (3.4028235e38, None),
+        (1.5, Some("+1.5")),
+    ];
+    let ids: [&str; 3] = ["+", "00", "0"];
+    for _ in 0..(1 + rng.below(4)) {
+        if !edges.is_empty() && rng.chance(2, 3) {
+            let a = rng.below(edges.len());
+            match rng.below(4) {
+                0 => {
+                    // another spelling of the id or of an endpoint
+                    let col = rng.below(3);
+                    let val = [edges[a].id, edges[a].src, edges[a].dst][col];
+                    edges[a].alt = Some((col, format!("{}{}", ids[rng.below(3)], val)));
+                }
+                _ => {
+                    let (d, t) = dists[rng.below(dists.len())];
+                    edges[a].dist = d;
+                    edges[a].alt = t.map(|t| (3, t.to_string()));
+                }
+            }
+        } else if !vertices.is_empty() {
+            let a = rng.below(vertices.len());
+            match rng.below(4) {
+                0 => {
+                    vertices[a].alt = Some((0, format!("{}{}", ids[rng.below(3)], vertices[a].id)));
+                }
+                k => {
+                    let (c, t) = coords[rng.below(coords.len())];
+                    if k == 1 {
+                        vertices[a].x = c;
+                        vertices[a].alt = t.map(|t| (1, t.to_string()));
+                    } else {
+                        vertices[a].y = c;
+                        vertices[a].alt = t.map(|t| (2, t.to_string()));
+                    }
+                }
+            }
+        }
+    }
+}
+
 fn gen_well_formed(rng: &mut Rng, big: bool) -> Case {
     let nv = match rng.below(10) {
         0 => 0,
@@ -674,14 +895,18 @@ fn gen_well_formed(rng: &mut Rng, big: bool) -> Case {
         _ => 3 + rng.below(if big { 40 } else { 12 }),
     };
     let pairs = gen_pairs(rng, nv, big);
-    let vertices = mk_vertices(rng, nv);
-    let edges = mk_edges(rng, &pairs);
+    let mut vertices = mk_vertices(rng, nv);
+    let mut edges = mk_edges(rng, &pairs);
+    if rng.chance(1, 6) {
+        special_numbers(rng, &mut edges, &mut vertices);
+    }
     let n_e = if rng.chance(1, 2) { None } else { Some(edges.len()) };
     let n_v = if rng.chance(1, 2) { None } else { Some(nv) };
-    Case { kind: "wf", n_e, n_v, e_enc: Enc::random(rng, 4, true), v_enc: Enc::random(rng, 3, true), edges, vertices }
+    let verbose = [None, Some(true), Some(false)][rng.below(3)];
+    Case { kind: "wf", n_e, n_v, e_enc: Enc::random(rng, 4, true), v_enc: Enc::random(rng, 3, true), edges, vertices, verbose }
 }
 
-const MALFORMED: [&str; 18] = [
+const MALFORMED: [&str; 20] = [
     "edge-id-permuted",
     "edge-id-offset",
     "edge-id-duplicate",
@@ -700,6 +925,8 @@ const MALFORMED: [&str; 18] = [
     "fewer-vertex-rows",
     "cr-line-endings",
     "compression-misnamed",
+    "gzip-truncated",
+    "huge-id",
 ];
 
 fn bad_text(rng: &mut Rng, col_is_float: bool) -> String {
@@ -725,6 +952,13 @@ fn gen_malformed(rng: &mut Rng, which: &'static str) -> Case {
         c.n_v = c.n_v.map(|_| nv);
     }
     c.kind = which;
+    // the other spellings were computed for the well-formed values; the mutations below change values
+    for r in c.edges.iter_mut() {
+        r.alt = None;
+    }
+    for r in c.vertices.iter_mut() {
+        r.alt = None;
+    }
     let ne = c.edges.len();
     let nv = c.vertices.len();
     match which {
@@ -854,6 +1088,31 @@ fn gen_malformed(rng: &mut Rng, which: &'static str) -> Case {
                 }
             }
         }
+        "gzip-truncated" => {
+            let cut = match rng.below(6) {
+                0 => Cut::Header(2 + rng.below(8)),
+                1 => Cut::Early(rng.below(11)),
+                2 => Cut::Trailer(1 + rng.below(8)),
+                _ => Cut::Frac(1 + rng.below(999)),
+            };
+            if rng.chance(1, 2) {
+                c.e_enc.gz = true;
+                c.e_enc.cut = Some(cut);
+            } else {
+                c.v_enc.gz = true;
+                c.v_enc.cut = Some(cut);
+            }
+        }
+        "huge-id" => {
+            // ids at the top of the usize range (they parse; one more digit would not)
+            let big = [usize::MAX, usize::MAX - 1, (1usize << 63), u32::MAX as usize + 1][rng.below(4)];
+            match rng.below(4) {
+                0 => c.edges[rng.below(ne)].id = big,
+                1 => c.edges[rng.below(ne)].src = big,
+                2 => c.edges[rng.below(ne)].dst = big,
+                _ => c.vertices[rng.below(nv)].id = big,
+            }
+        }
         "fewer-vertex-rows" => {
             let keep = rng.below(nv);
             c.vertices.truncate(keep);
@@ -865,11 +1124,11 @@ fn gen_malformed(rng: &mut Rng, which: &'static str) -> Case {
 }
 
 fn e(id: usize, src: usize, dst: usize, dist: f64) -> ERow {
-    ERow { id, src, dst, dist, bad: None, short: false }
+    ERow { id, src, dst, dist, bad: None, short: false, alt: None }
 }
 
 fn v(id: usize, x: f32, y: f32) -> VRow {
-    VRow { id, x, y, bad: None, short: false }
+    VRow { id, x, y, bad: None, short: false, alt: None }
 }
 
 fn grid_vertices(n: usize) -> Vec<VRow> {
@@ -915,6 +1174,7 @@ fn corpus() -> Vec<Case> {
             n_v: if scan { None } else { Some(14) },
             e_enc,
             v_enc,
+            verbose: if scan { Some(true) } else { None },
         });
     }
     // six parallel edges 0->1, six self loops on 2, vertex 3 isolated
@@ -923,18 +1183,18 @@ fn corpus() -> Vec<Case> {
         pe.push(e(2 * k, 0, 1, 1.5 + k as f64));
         pe.push(e(2 * k + 1, 2, 2, 0.5 + k as f64));
     }
-    out.push(Case { kind: "wf", edges: pe, vertices: grid_vertices(4), n_e: None, n_v: None, e_enc: Enc::plain(4), v_enc: Enc::plain(3) });
+    out.push(Case { kind: "wf", edges: pe, vertices: grid_vertices(4), n_e: None, n_v: None, e_enc: Enc::plain(4), v_enc: Enc::plain(3), verbose: Some(false) });
     // empty network, header only
-    out.push(Case { kind: "wf", edges: vec![], vertices: vec![], n_e: None, n_v: None, e_enc: Enc::plain(4), v_enc: Enc::plain(3) });
-    out.push(Case { kind: "wf", edges: vec![], vertices: vec![], n_e: Some(0), n_v: Some(0), e_enc: Enc::plain(4), v_enc: Enc::plain(3) });
+    out.push(Case { kind: "wf", edges: vec![], vertices: vec![], n_e: None, n_v: None, e_enc: Enc::plain(4), v_enc: Enc::plain(3), verbose: Some(false) });
+    out.push(Case { kind: "wf", edges: vec![], vertices: vec![], n_e: Some(0), n_v: Some(0), e_enc: Enc::plain(4), v_enc: Enc::plain(3), verbose: Some(false) });
     // vertices only
-    out.push(Case { kind: "wf", edges: vec![], vertices: grid_vertices(3), n_e: None, n_v: Some(3), e_enc: Enc::plain(4), v_enc: Enc::plain(3) });
+    out.push(Case { kind: "wf", edges: vec![], vertices: grid_vertices(3), n_e: None, n_v: Some(3), e_enc: Enc::plain(4), v_enc: Enc::plain(3), verbose: Some(false) });
     // one self loop on a single vertex, no final newline
     let mut nonl = Enc::plain(4);
     nonl.final_newline = false;
     let mut nonl_v = Enc::plain(3);
     nonl_v.final_newline = false;
-    out.push(Case { kind: "wf", edges: vec![e(0, 0, 0, 3.25)], vertices: grid_vertices(1), n_e: None, n_v: None, e_enc: nonl, v_enc: nonl_v });
+    out.push(Case { kind: "wf", edges: vec![e(0, 0, 0, 3.25)], vertices: grid_vertices(1), n_e: None, n_v: None, e_enc: nonl, v_enc: nonl_v, verbose: Some(false) });
 
     // --- witnesses of the findings: files that do not describe a network.  W1-W5 were accepted silently
     // and are rejected with a DatasetError since /repo 0316a94 and c6cac08; W6 was loaded with empty
@@ -950,6 +1210,7 @@ fn corpus() -> Vec<Case> {
         n_v: Some(2),
         e_enc: Enc::plain(4),
         v_enc: Enc::plain(3),
+        verbose: Some(false),
     });
     // W2: an edge ends at a vertex that is not in the vertex file
     out.push(Case {
@@ -960,6 +1221,7 @@ fn corpus() -> Vec<Case> {
         n_v: None,
         e_enc: Enc::plain(4),
         v_enc: Enc::plain(3),
+        verbose: Some(false),
     });
     // W3: the declared vertex count is smaller than the vertex file
     out.push(Case {
@@ -970,6 +1232,7 @@ fn corpus() -> Vec<Case> {
         n_v: Some(2),
         e_enc: Enc::plain(4),
         v_enc: Enc::plain(3),
+        verbose: Some(false),
     });
     // W4: vertex rows listed in another order than their ids
     out.push(Case {
@@ -980,6 +1243,7 @@ fn corpus() -> Vec<Case> {
         n_v: None,
         e_enc: Enc::plain(4),
         v_enc: Enc::plain(3),
+        verbose: Some(false),
     });
     // W5: a duplicated edge id leaving the same vertex overwrites the adjacency entry
     out.push(Case {
@@ -990,6 +1254,7 @@ fn corpus() -> Vec<Case> {
         n_v: None,
         e_enc: Enc::plain(4),
         v_enc: Enc::plain(3),
+        verbose: Some(false),
     });
     // W6: a well-formed vertex file with classic-Mac (lone CR) line endings and a scanned vertex count
     let mut cr = Enc::plain(3);
@@ -1002,6 +1267,7 @@ fn corpus() -> Vec<Case> {
         n_v: None,
         e_enc: Enc::plain(4),
         v_enc: cr,
+        verbose: Some(false),
     });
     // W8: the declared vertex count (3) covers an endpoint for which the vertex file (2 rows) has no row
     out.push(Case {
@@ -1012,6 +1278,7 @@ fn corpus() -> Vec<Case> {
         n_v: Some(3),
         e_enc: Enc::plain(4),
         v_enc: Enc::plain(3),
+        verbose: Some(false),
     });
     // W9: the same with a scanned count: a trailing blank line makes the scan see one vertex more
     let mut blank = Enc::plain(3);
@@ -1024,7 +1291,75 @@ fn corpus() -> Vec<Case> {
         n_v: None,
         e_enc: Enc::plain(4),
         v_enc: blank,
+        verbose: Some(false),
     });
+    // W10: a gzip edge file cut short two bytes into its first deflate block, explicit counts: the first
+    // read fails while the csv reader fetches the header row (was loaded as an edge list without rows)
+    // W11: a gzip edge file cut short inside its ten-byte header, scanned counts (was read as plain text:
+    // a header row of garbage, no rows)
+    // W12: a vertex file cut short inside the CRC / length trailer
+    let w_edges: Vec<ERow> = (0..40).map(|i| e(i, i % 3, (i + 1) % 3, i as f64 + 0.5)).collect();
+    for (on_vertex, cut, explicit) in [(false, Cut::Early(2), true), (false, Cut::Header(5), false), (true, Cut::Trailer(4), true), (false, Cut::Frac(500), true), (true, Cut::Header(9), true)] {
+        let mut e_enc = Enc::plain(4);
+        let mut v_enc = Enc::plain(3);
+        if on_vertex {
+            v_enc.gz = true;
+            v_enc.cut = Some(cut);
+        } else {
+            e_enc.gz = true;
+            e_enc.cut = Some(cut);
+        }
+        out.push(Case {
+            kind: "gzip-truncated",
+            edges: w_edges.clone(),
+            vertices: grid_vertices(3),
+            n_e: if explicit { Some(40) } else { None },
+            n_v: if explicit { Some(3) } else { None },
+            e_enc,
+            v_enc,
+            verbose: None,
+        });
+    }
+    // W13: the same edge list as a gzip file of two members (was loaded as its first member: 20 of 40 edges),
+    // and a vertex file of three members
+    for explicit in [false, true] {
+        let mut e_enc = Enc::plain(4);
+        e_enc.gz = true;
+        e_enc.members = 2;
+        let mut v_enc = Enc::plain(3);
+        v_enc.gz = true;
+        v_enc.members = 3;
+        out.push(Case {
+            kind: "wf",
+            edges: w_edges.clone(),
+            vertices: grid_vertices(3),
+            n_e: if explicit { Some(40) } else { None },
+            n_v: if explicit { Some(3) } else { None },
+            e_enc,
+            v_enc,
+            verbose: Some(true),
+        });
+    }
+    // W14: an empty edge file with explicit counts (was loaded as a network without edges); the same for
+    // the vertex file is among the error kinds below
+    {
+        let mut e_enc = Enc::plain(4);
+        e_enc.empty = true;
+        out.push(Case { kind: "empty-file", edges: w_edges.clone(), vertices: grid_vertices(3), n_e: Some(40), n_v: Some(3), e_enc, v_enc: Enc::plain(3), verbose: None });
+    }
+    // an empty file whose name is not UTF-8, scanned counts (the error text has no path to show)
+    for on_vertex in [false, true] {
+        let mut e_enc = Enc::plain(4);
+        let mut v_enc = Enc::plain(3);
+        if on_vertex {
+            v_enc.empty = true;
+            v_enc.nonutf8_name = true;
+        } else {
+            e_enc.empty = true;
+            e_enc.nonutf8_name = true;
+        }
+        out.push(Case { kind: "empty-file", edges: w_edges.clone(), vertices: grid_vertices(3), n_e: None, n_v: None, e_enc, v_enc, verbose: Some(true) });
+    }
     // W7: a gzip-compressed vertex file that is not named *.gz, scanned vertex count
     let mut mis = Enc::plain(3);
     mis.gz = true;
@@ -1037,6 +1372,7 @@ fn corpus() -> Vec<Case> {
         n_v: None,
         e_enc: Enc::plain(4),
         v_enc: mis,
+        verbose: Some(false),
     });
     // --- error kinds ---
     let base = Case {
@@ -1047,6 +1383,7 @@ fn corpus() -> Vec<Case> {
         n_v: None,
         e_enc: Enc::plain(4),
         v_enc: Enc::plain(3),
+        verbose: Some(false),
     };
     for (kind, f) in [
         ("missing-file", Box::new(|c: &mut Case| c.e_enc.absent = true) as Box<dyn Fn(&mut Case)>),
@@ -1113,12 +1450,16 @@ fn run_load_case(ctx: &mut Ctx, idx: usize, dir: &Path, case: &Case, rng: &Rng) 
     let tag = format!("c{}", idx);
     let w = write_case(dir, &tag, rng, case, case.e_enc.gz, case.v_enc.gz);
     let line = case_line(case, &w);
-    let res = load(&w, case.n_e, case.n_v);
+    let res = load_v(&w, case.n_e, case.n_v, case.verbose);
     let out = outcome_line(&res);
     ctx.emit(idx, line.clone(), out.clone());
 
     // distribution
     let wf = case.well_formed();
+    // a well-formed network stored as a gzip file of several members: whatever goes wrong is reported
+    // under the key of the dropped-members defect
+    let multi = wf && (case.e_enc.members > 1 || case.v_enc.members > 1); // the other compression is loaded too
+    let wf_key = |k: &'static str| -> &'static str { if multi { "read_utils/gzip-later-members-dropped" } else { k } };
     ctx.count(if wf { "files/well-formed" } else { "files/malformed" });
     if !wf {
         ctx.count(&format!("malformed/{}", case.kind));
@@ -1193,7 +1534,7 @@ fn run_load_case(ctx: &mut Ctx, idx: usize, dir: &Path, case: &Case, rng: &Rng) 
         Err(p) => ctx.fail(idx, "graph_loader/panic", format!("Graph::from_files panicked: {}", p)),
         Ok(Err(err)) => {
             if wf {
-                ctx.fail(idx, "graph/load-error", format!("well-formed files rejected: {}", err));
+                ctx.fail(idx, wf_key("graph/load-error"), format!("well-formed files rejected: {}", err));
             } else if case.data_well_formed() {
                 ctx.fail(
                     idx,
@@ -1207,13 +1548,35 @@ fn run_load_case(ctx: &mut Ctx, idx: usize, dir: &Path, case: &Case, rng: &Rng) 
                 || (!case.v_enc.empty && case.vertices.iter().any(|r| case.v_bad(r)));
             if case.e_enc.absent || case.v_enc.absent {
                 ctx.fail(idx, "graph_loader/missing-file-accepted", "a file is missing but the load succeeded".into());
+            } else if case.e_enc.cut.is_some() || case.v_enc.cut.is_some() {
+                ctx.fail(
+                    idx,
+                    "read_utils/truncated-gzip-accepted",
+                    format!(
+                        "a gzip file is cut short ({:?} / {:?}) but the load succeeded with {} edges and {} vertices ({} and {} are listed)",
+                        case.e_enc.cut,
+                        case.v_enc.cut,
+                        g.n_edges(),
+                        g.n_vertices(),
+                        case.edges.len(),
+                        case.vertices.len()
+                    ),
+                );
+            } else if case.e_enc.empty || case.v_enc.empty {
+                ctx.fail(
+                    idx,
+                    "read_utils/empty-file-accepted",
+                    format!("a file has no content at all (counts {:?}/{:?}) but the load succeeded", case.n_e, case.n_v),
+                );
             } else if any_bad {
                 ctx.fail(idx, "graph_loader/undecodable-row-accepted", "a row does not decode but the load succeeded".into());
             } else {
                 let edges: Vec<ERow> = if case.e_enc.empty { vec![] } else { case.edges.clone() };
                 let vertices: Vec<VRow> = if case.v_enc.empty { vec![] } else { case.vertices.clone() };
                 if let Some((aspect, msg)) = check_by_id(g, &edges, &vertices) {
-                    if wf {
+                    if multi {
+                        ctx.fail(idx, "read_utils/gzip-later-members-dropped", format!("[gzip members {}/{}] {}", case.e_enc.members, case.v_enc.members, msg));
+                    } else if wf {
                         ctx.fail(idx, &format!("graph/{}", aspect), msg);
                     } else {
                         ctx.fail(idx, finding_key(case, &edges, &vertices, g.adj.len()), format!("[{}; {}] the load succeeds but {}", case.kind, aspect, msg));
@@ -1227,7 +1590,7 @@ fn run_load_case(ctx: &mut Ctx, idx: usize, dir: &Path, case: &Case, rng: &Rng) 
         let w2 = write_case(dir, &format!("{}t", tag), rng, case, !case.e_enc.gz, !case.v_enc.gz);
         let out2 = outcome_line(&load(&w2, case.n_e, case.n_v));
         if out2 != out {
-            ctx.fail(idx, "graph/gzip-parity", format!("edge file gzip={} vertex file gzip={} loads differently from the other compression", case.e_enc.gz, case.v_enc.gz));
+            ctx.fail(idx, wf_key("graph/gzip-parity"), format!("edge file gzip={} vertex file gzip={} loads differently from the other compression", case.e_enc.gz, case.v_enc.gz));
         }
         // explicit / scanned parity: the other way of giving the counts loads a network that matches the rows
         let n_e2 = if case.n_e.is_some() { None } else { Some(case.edges.len()) };
@@ -1235,10 +1598,10 @@ fn run_load_case(ctx: &mut Ctx, idx: usize, dir: &Path, case: &Case, rng: &Rng) 
         match load(&w, n_e2, n_v2) {
             Ok(Ok(g2)) => {
                 if let Some((aspect, msg)) = check_by_id(&g2, &case.edges, &case.vertices) {
-                    ctx.fail(idx, "graph/count-parity", format!("with counts {:?}/{:?}: {} {}", n_e2, n_v2, aspect, msg));
+                    ctx.fail(idx, wf_key("graph/count-parity"), format!("with counts {:?}/{:?}: {} {}", n_e2, n_v2, aspect, msg));
                 }
             }
-            Ok(Err(err)) => ctx.fail(idx, "graph/count-parity", format!("with counts {:?}/{:?}: {}", n_e2, n_v2, err)),
+            Ok(Err(err)) => ctx.fail(idx, wf_key("graph/count-parity"), format!("with counts {:?}/{:?}: {}", n_e2, n_v2, err)),
             Err(p) => ctx.fail(idx, "graph_loader/panic", format!("with counts {:?}/{:?}: panic {}", n_e2, n_v2, p)),
         }
         let _ = std::fs::remove_file(&w2.e_path);
@@ -1251,66 +1614,152 @@ fn run_load_case(ctx: &mut Ctx, idx: usize, dir: &Path, case: &Case, rng: &Rng) 
 // ------------------------------------------------------------------------------------------------
 // per-edge tables through the real readers
 
-fn run_table_case(ctx: &mut Ctx, idx: usize, dir: &Path, rng: &mut Rng, kind: usize) {
+fn run_table_case(ctx: &mut Ctx, idx: usize, dir: &Path, rng: &mut Rng, kind: usize, variant: usize) {
     let n = 1 + rng.below(if ctx.quick() { 40 } else { 400 });
-    let gz = rng.chance(1, 2);
-    let final_newline = !rng.chance(1, 5);
+    // variants: 0-2 a good file; 3 a row that does not decode; 4 an empty line (raw files) / a value out
+    // of range (headings); 5 a byte that is not UTF-8; 6 gzip cut short; 7 several gzip members; 8 no file;
+    // 9 an empty line after the last row
+    let gz = match variant {
+        6 | 7 => true,
+        _ => rng.chance(1, 2),
+    };
+    // an empty line only exists when a line terminator follows it
+    let final_newline = variant == 9 || variant == 4 || !rng.chance(1, 5);
     let names = ["speed", "grade", "class", "heading"];
     let path = dir.join(format!("t{}_{}.{}{}", idx, names[kind], if kind == 3 { "csv" } else { "txt" }, if gz { ".gz" } else { "" }));
     // payloads as 64-bit integers: f64 bits, the class, or the two headings packed
-    let mut payload: Vec<u64> = vec![];
-    let mut lines: Vec<String> = vec![];
+    let mut payload: Vec<Option<u64>> = vec![];
+    let mut lines: Vec<Vec<u8>> = vec![];
     if kind == 3 {
-        lines.push("arrival_heading,departure_heading".into());
+        lines.push(b"arrival_heading,departure_heading".to_vec());
     }
-    for _ in 0..n {
+    let bad_at = match variant {
+        3 | 4 | 5 => Some(rng.below(n)),
+        _ => None,
+    };
+    for i in 0..n {
+        if bad_at == Some(i) {
+            payload.push(None);
+            let t: Vec<u8> = match (variant, kind) {
+                (3, 0) => [&b"abc"[..], b"-3.5", b"12 kph"][rng.below(3)].to_vec(),
+                (3, 1) => [&b"steep"[..], b"0,01"][rng.below(2)].to_vec(),
+                (3, 2) => [&b"256"[..], b"-1", b"3.0", b"residential"][rng.below(4)].to_vec(),
+                (3, _) => [&b"north,90"[..], b"90", b"12,13,14", b"1.5,2"][rng.below(4)].to_vec(),
+                (4, 3) => [&b"40000,10"[..], b"10,-40000"][rng.below(2)].to_vec(),
+                (4, _) => vec![],
+                (_, 3) => vec![b'1', 0xff, b',', b'2'],
+                _ => vec![b'1', 0xff],
+            };
+            lines.push(t);
+            continue;
+        }
         match kind {
             0 => {
                 let x = if rng.chance(1, 2) { (5 + rng.below(120)) as f64 } else { rng.small_decimal(130, 2) + 0.5 };
-                payload.push(x.to_bits());
-                lines.push(format!("{}", x));
+                payload.push(Some(x.to_bits()));
+                lines.push(format!("{}", x).into_bytes());
             }
             1 => {
                 let x = if rng.chance(1, 5) { 0.0 } else { rng.uniform(-0.3, 0.3) };
-                payload.push(x.to_bits());
-                lines.push(format!("{}", x));
+                payload.push(Some(x.to_bits()));
+                lines.push(format!("{}", x).into_bytes());
             }
             2 => {
                 let x = rng.below(256) as u64;
-                payload.push(x);
-                lines.push(format!("{}", x));
+                payload.push(Some(x));
+                lines.push(format!("{}", x).into_bytes());
             }
             _ => {
                 let a = rng.range(0, 359) as i16;
                 let b = rng.range(0, 359) as i16;
                 if rng.chance(1, 5) {
                     // no departure heading: it is the arrival heading
-                    payload.push(((a as u16 as u64) << 16) | (a as u16 as u64));
-                    lines.push(format!("{},", a));
+                    payload.push(Some(((a as u16 as u64) << 16) | (a as u16 as u64)));
+                    lines.push(format!("{},", a).into_bytes());
                 } else {
-                    payload.push(((a as u16 as u64) << 16) | (b as u16 as u64));
-                    lines.push(format!("{},{}", a, b));
+                    payload.push(Some(((a as u16 as u64) << 16) | (b as u16 as u64)));
+                    lines.push(format!("{},{}", a, b).into_bytes());
                 }
             }
         }
     }
-    let mut text = lines.join("\n");
-    if final_newline {
-        text.push('\n');
+    if variant == 9 && kind != 3 {
+        // a raw file has no blank-line rule: the empty line is row n and does not decode
+        payload.push(None);
+        lines.push(vec![]);
     }
-    write_file(&path, &text, gz);
+    let mut bytes: Vec<u8> = lines.join(&b"\n"[..]);
+    if final_newline {
+        bytes.push(b'\n');
+    }
+    let cut = if variant == 6 {
+        Some(match rng.below(4) {
+            0 => Cut::Header(2 + rng.below(8)),
+            1 => Cut::Early(rng.below(11)),
+            2 => Cut::Trailer(1 + rng.below(8)),
+            _ => Cut::Frac(1 + rng.below(999)),
+        })
+    } else {
+        None
+    };
+    let members = if variant == 7 { 2 + rng.below(3) } else { 1 };
+    let readable = variant != 6 && variant != 8;
+    if variant != 8 {
+        if gz {
+            // SAFETY of the text: members and cuts work on bytes
+            let text_bytes = bytes.clone();
+            let m = members.max(1);
+            let mut out: Vec<u8> = vec![];
+            for k in 0..m {
+                out.extend(gz_member(&text_bytes[text_bytes.len() * k / m..text_bytes.len() * (k + 1) / m]));
+            }
+            let keep = match cut {
+                None => out.len(),
+                Some(Cut::Header(k)) => k.min(out.len()),
+                Some(Cut::Early(k)) => (10 + k).min(out.len() - 1),
+                Some(Cut::Frac(k)) => (out.len() * k / 1000).clamp(2, out.len() - 1),
+                Some(Cut::Trailer(k)) => out.len() - k.clamp(1, 8),
+            };
+            out.truncate(keep);
+            write_bytes(&path, &out);
+        } else {
+            write_bytes(&path, &bytes);
+        }
+    }
     let p2 = path.clone();
-    let loaded: Result<Result<Vec<u64>, String>, ()> = std::panic::catch_unwind(move || match kind {
-        0 => SpeedTraversalEngine::new(&p2, SpeedUnit::KilometersPerHour, None, None)
+    // (rows, number of callback calls)
+    let loaded: Result<(Result<Vec<u64>, String>, usize), ()> = std::panic::catch_unwind(move || {
+        let mut calls = 0usize;
+        let r = match kind {
+            0 => read_utils::read_raw_file(&p2, read_decoders::default::<Speed>, Some(Box::new(|| calls += 1)))
+                .map(|t| t.iter().map(|s| s.as_f64().to_bits()).collect())
+                .map_err(|e| e.to_string()),
+            1 => read_utils::read_raw_file(&p2, read_decoders::default::<Grade>, Some(Box::new(|| calls += 1)))
+                .map(|t| t.iter().map(|g| g.as_f64().to_bits()).collect())
+                .map_err(|e| e.to_string()),
+            2 => read_utils::read_raw_file(&p2, read_decoders::u8, Some(Box::new(|| calls += 1)))
+                .map(|t| t.iter().map(|c| *c as u64).collect())
+                .map_err(|e| e.to_string()),
+            _ => read_utils::from_csv::<EdgeHeading>(&p2, true, Some(Box::new(|_h: &EdgeHeading| calls += 1)))
+                .map(|t| t.iter().map(|h| ((h.start_heading() as u16 as u64) << 16) | (h.end_heading() as u16 as u64)).collect())
+                .map_err(|e| e.to_string()),
+        };
+        (r, calls)
+    })
+    .map_err(|_| ());
+    // the same speed table through its real consumer, and every reader without a callback
+    let p3 = path.clone();
+    let second: Result<Result<Vec<u64>, String>, ()> = std::panic::catch_unwind(move || match kind {
+        0 => SpeedTraversalEngine::new(&p3, SpeedUnit::KilometersPerHour, None, None)
             .map(|e| e.speed_table.iter().map(|s| s.as_f64().to_bits()).collect())
             .map_err(|e| e.to_string()),
-        1 => read_utils::read_raw_file(&p2, read_decoders::default::<Grade>, None)
+        1 => read_utils::read_raw_file(&p3, read_decoders::default::<Grade>, None)
             .map(|t| t.iter().map(|g| g.as_f64().to_bits()).collect())
             .map_err(|e| e.to_string()),
-        2 => read_utils::read_raw_file(&p2, read_decoders::u8, None)
+        2 => read_utils::read_raw_file(&p3, read_decoders::u8, None)
             .map(|t| t.iter().map(|c| *c as u64).collect())
             .map_err(|e| e.to_string()),
-        _ => read_utils::from_csv::<EdgeHeading>(&p2, true, None)
+        _ => read_utils::from_csv::<EdgeHeading>(&p3, true, None)
             .map(|t| t.iter().map(|h| ((h.start_heading() as u16 as u64) << 16) | (h.end_heading() as u16 as u64)).collect())
             .map_err(|e| e.to_string()),
     })
@@ -1320,15 +1769,22 @@ fn run_table_case(ctx: &mut Ctx, idx: usize, dir: &Path, rng: &mut Rng, kind: us
     let mut probes: Vec<usize> = (0..=n).collect();
     rng.shuffle(&mut probes);
     probes.truncate(12);
-    let mut t: Vec<String> = vec!["table".into(), format!("{}:{}{}", names[kind], if gz { "gz" } else { "pl" }, if final_newline { "N" } else { "n" })];
-    t.push(n.to_string());
-    t.extend(payload.iter().map(|p| p.to_string()));
+    let mut t: Vec<String> = vec![
+        "table".into(),
+        format!("{}:{}{}:v{}", names[kind], if gz { "gz" } else { "pl" }, if final_newline { "N" } else { "n" }, variant),
+    ];
+    t.push(if readable { "1" } else { "0" }.into());
+    t.push(payload.len().to_string());
+    t.extend(payload.iter().map(|p| match p {
+        Some(p) => format!("r {}", p),
+        None => "b".to_string(),
+    }));
     t.push(probes.len().to_string());
     t.extend(probes.iter().map(|p| p.to_string()));
     let line = t.join(" ");
     let out = match &loaded {
-        Ok(Ok(tab)) => {
-            let mut o = vec![tab.len().to_string()];
+        Ok((Ok(tab), calls)) => {
+            let mut o = vec!["ok".to_string(), tab.len().to_string(), "cb".to_string(), calls.to_string()];
             for p in &probes {
                 o.push(match tab.get(*p) {
                     Some(x) => format!("some {}", x),
@@ -1337,22 +1793,652 @@ fn run_table_case(ctx: &mut Ctx, idx: usize, dir: &Path, rng: &mut Rng, kind: us
             }
             o.join(" ")
         }
-        Ok(Err(_)) => "err".to_string(),
+        Ok((Err(_), calls)) => {
+            if readable {
+                format!("err cb {}", calls)
+            } else {
+                "err".to_string()
+            }
+        }
         Err(_) => "panic".to_string(),
     };
     ctx.emit(idx, line.clone(), out);
     ctx.count(&format!("table/{}", names[kind]));
+    ctx.count(&format!(
+        "table-variant/{}",
+        ["good", "good", "good", "undecodable-row", "empty-line-or-out-of-range", "not-utf8", "gzip-truncated", "gzip-members", "missing-file", "empty-line-at-end"][variant]
+    ));
     ctx.nontrivial(&line);
+    let expect_ok = payload.iter().all(|p| p.is_some()) && readable;
     match &loaded {
-        Ok(Ok(tab)) => {
-            if tab.len() != n {
-                ctx.fail(idx, "table/alignment", format!("{} table: {} rows written, {} loaded", names[kind], n, tab.len()));
-            } else if let Some(i) = (0..n).find(|&i| tab[i] != payload[i]) {
-                ctx.fail(idx, "table/alignment", format!("{} table: row {} written {} loaded {}", names[kind], i, payload[i], tab[i]));
+        Ok((Ok(tab), calls)) => {
+            let want: Vec<u64> = payload.iter().flatten().cloned().collect();
+            if !readable {
+                ctx.fail(idx, "read_utils/truncated-gzip-accepted", format!("{} table: the file is cut short or missing but {} rows were loaded", names[kind], tab.len()));
+            } else if !expect_ok {
+                ctx.fail(idx, "table/undecodable-row-accepted", format!("{} table: a row does not decode but {} rows were loaded", names[kind], tab.len()));
+            } else if tab.len() != want.len() {
+                let key = if members > 1 { "read_utils/gzip-later-members-dropped" } else { "table/alignment" };
+                ctx.fail(idx, key, format!("{} table: {} rows written, {} loaded", names[kind], want.len(), tab.len()));
+            } else if let Some(i) = (0..want.len()).find(|&i| tab[i] != want[i]) {
+                ctx.fail(idx, "table/alignment", format!("{} table: row {} written {} loaded {}", names[kind], i, want[i], tab[i]));
+            } else if *calls != want.len() {
+                ctx.fail(idx, "table/callback-count", format!("{} table: {} rows, {} callback calls", names[kind], want.len(), calls));
             }
         }
-        Ok(Err(e)) => ctx.fail(idx, "table/load-error", format!("{} table rejected: {}", names[kind], e)),
+        Ok((Err(e), _)) => {
+            if expect_ok {
+                ctx.fail(idx, "table/load-error", format!("{} table rejected: {}", names[kind], e));
+            }
+        }
         Err(_) => ctx.fail(idx, "table/panic", format!("{} table reader panicked", names[kind])),
+    }
+    match (&loaded, &second) {
+        (Ok((a, _)), Ok(b)) => {
+            if a.as_ref().ok() != b.as_ref().ok() {
+                ctx.fail(idx, "table/reader-parity", format!("{} table: with and without callback / through its consumer differ", names[kind]));
+            }
+        }
+        (_, Err(_)) => ctx.fail(idx, "table/panic", format!("{} table consumer panicked", names[kind])),
+        _ => {}
+    }
+}
+
+// ------------------------------------------------------------------------------------------------
+// a Graph value assembled field by field: every accessor, every error arm, whatever the fields say
+
+/// reference semantics of the accessors in plain Rust over the raw fields (independent of the Lean model)
+struct RefGraph {
+    adj: Vec<Vec<(usize, usize)>>,
+    rev: Vec<Vec<(usize, usize)>>,
+    edges: Vec<(usize, usize, usize, f64)>,
+    vertices: Vec<(usize, f32, f32)>,
+}
+
+impl RefGraph {
+    fn keys(ins: &[(usize, usize)]) -> Vec<usize> {
+        let mut out: Vec<usize> = vec![];
+        for (k, _) in ins {
+            if !out.contains(k) {
+                out.push(*k);
+            }
+        }
+        out
+    }
+    fn incident(&self, v: usize, fwd: bool) -> Vec<usize> {
+        let t = if fwd { &self.adj } else { &self.rev };
+        t.get(v).map(|m| RefGraph::keys(m)).unwrap_or_default()
+    }
+    fn v_out(&self, i: usize) -> Option<String> {
+        self.vertices.get(i).map(|(id, x, y)| format!("{} {} {}", id, fbits(*x as f64), fbits(*y as f64)))
+    }
+    fn e_out(&self, i: usize) -> Option<String> {
+        self.edges.get(i).map(|(id, s, d, x)| format!("{} {} {} {}", id, s, d, fbits(*x)))
+    }
+    fn opt(o: Option<String>, err: &str) -> String {
+        match o {
+            Some(s) => format!("s {}", s),
+            None => err.to_string(),
+        }
+    }
+    fn triplet(&self, e: usize) -> String {
+        let Some((_, s, d, _)) = self.edges.get(e) else { return "ne".into() };
+        let Some(sv) = self.v_out(*s) else { return "nv".into() };
+        let Some(dv) = self.v_out(*d) else { return "nv".into() };
+        format!("s {} {} {}", sv, self.e_out(e).unwrap(), dv)
+    }
+    fn triplet_ids(&self, v: usize, fwd: bool) -> Result<Vec<(usize, usize, usize)>, &'static str> {
+        let mut out = vec![];
+        for e in self.incident(v, fwd) {
+            let Some((_, s, d, _)) = self.edges.get(e) else { return Err("ne") };
+            out.push((v, e, if fwd { *d } else { *s }));
+        }
+        Ok(out)
+    }
+    fn triplet_attrs(&self, v: usize, fwd: bool) -> String {
+        let ids = match self.triplet_ids(v, fwd) {
+            Ok(l) => l,
+            Err(e) => return e.to_string(),
+        };
+        let mut t = vec![ids.len().to_string()];
+        for (a, e, b) in ids {
+            let Some(av) = self.v_out(a) else { return "nv".into() };
+            let Some(ev) = self.e_out(e) else { return "ne".into() };
+            let Some(bv) = self.v_out(b) else { return "nv".into() };
+            t.push(format!("{} {} {}", av, ev, bv));
+        }
+        format!("s {}", t.join(" "))
+    }
+    fn list(l: &[usize]) -> String {
+        let mut t = vec![l.len().to_string()];
+        t.extend(l.iter().map(|e| e.to_string()));
+        t.join(" ")
+    }
+    fn out(&self) -> String {
+        let ne = self.edges.len();
+        let nv = self.vertices.len();
+        let pv = nv.max(self.adj.len()).max(self.rev.len());
+        let mut t: Vec<String> = vec!["ok".into(), ne.to_string(), nv.to_string(), self.adj.len().to_string(), self.rev.len().to_string()];
+        for e in 0..=ne {
+            t.push("e".into());
+            t.push(RefGraph::opt(self.e_out(e), "ne"));
+            let s = self.edges.get(e).map(|x| x.1.to_string());
+            let d = self.edges.get(e).map(|x| x.2.to_string());
+            t.push(RefGraph::opt(s.clone(), "ne"));
+            t.push(RefGraph::opt(d.clone(), "ne"));
+            t.push(RefGraph::opt(d, "ne"));
+            t.push(RefGraph::opt(s, "ne"));
+            t.push(self.triplet(e));
+        }
+        for v in 0..=pv {
+            t.push("v".into());
+            t.push(RefGraph::opt(self.v_out(v), "nv"));
+            let o = self.incident(v, true);
+            let i = self.incident(v, false);
+            t.push(RefGraph::list(&o));
+            t.push(RefGraph::list(&i));
+            t.push(RefGraph::list(&o));
+            t.push(RefGraph::list(&i));
+            for fwd in [true, false] {
+                t.push(match self.triplet_ids(v, fwd) {
+                    Ok(l) => {
+                        let mut u = vec![l.len().to_string()];
+                        u.extend(l.iter().map(|(a, e, b)| format!("{} {} {}", a, e, b)));
+                        format!("s {}", u.join(" "))
+                    }
+                    Err(e) => e.to_string(),
+                });
+            }
+            t.push(self.triplet_attrs(v, true));
+            t.push(self.triplet_attrs(v, false));
+        }
+        t.push("ids".into());
+        t.push(RefGraph::list(&(0..ne).collect::<Vec<_>>()));
+        t.push(RefGraph::list(&(0..nv).collect::<Vec<_>>()));
+        t.join(" ")
+    }
+}
+
+fn run_graph_case(ctx: &mut Ctx, idx: usize, rng: &mut Rng, consistent: bool) {
+    use routee_compass_core::util::compact_ordered_hash_map::CompactOrderedHashMap;
+    let ne = rng.below(9);
+    let nv = rng.below(7);
+    let span = 10usize;
+    let mut r = RefGraph { adj: vec![], rev: vec![], edges: vec![], vertices: vec![] };
+    for i in 0..nv {
+        let (x, y) = coord(rng);
+        r.vertices.push((if consistent { i } else { rng.below(span) }, x, y));
+    }
+    for i in 0..ne {
+        let (s, d) = if consistent && nv > 0 { (rng.below(nv), rng.below(nv)) } else { (rng.below(span), rng.below(span)) };
+        r.edges.push((if consistent { i } else { rng.below(span) }, s, d, nice_dist(rng)));
+    }
+    if consistent && nv > 0 {
+        r.adj = vec![vec![]; nv];
+        r.rev = vec![vec![]; nv];
+        for (i, s, d, _) in r.edges.clone() {
+            r.adj[s].push((i, d));
+            r.rev[d].push((i, s));
+        }
+    } else {
+        let na = rng.below(7);
+        let nr = if rng.chance(1, 2) { na } else { rng.below(7) };
+        let gen_entry = |rng: &mut Rng| -> Vec<(usize, usize)> {
+            let len = *rng.pick(&[0usize, 1, 2, 3, 4, 5, 6, 7, 9, 12]);
+            (0..len).map(|_| (rng.below(span), rng.below(span))).collect()
+        };
+        r.adj = (0..na).map(|_| gen_entry(rng)).collect();
+        r.rev = (0..nr).map(|_| gen_entry(rng)).collect();
+    }
+    let build = |t: &Vec<Vec<(usize, usize)>>| -> Box<[CompactOrderedHashMap<EdgeId, VertexId>]> {
+        t.iter()
+            .map(|ins| {
+                let mut m = CompactOrderedHashMap::empty();
+                for (k, v) in ins {
+                    m.insert(EdgeId(*k), VertexId(*v));
+                }
+                m
+            })
+            .collect::<Vec<_>>()
+            .into_boxed_slice()
+    };
+    let adj_t = r.adj.clone();
+    let rev_t = r.rev.clone();
+    let edges_t = r.edges.clone();
+    let vertices_t = r.vertices.clone();
+    let out = std::panic::catch_unwind(move || {
+        let g = Graph {
+            adj: build(&adj_t),
+            rev: build(&rev_t),
+            edges: edges_t.iter().map(|(i, s, d, x)| Edge::new(*i, *s, *d, *x)).collect::<Vec<_>>().into_boxed_slice(),
+            vertices: vertices_t.iter().map(|(i, x, y)| Vertex::new(*i, *x, *y)).collect::<Vec<_>>().into_boxed_slice(),
+        };
+        graph_out(&g)
+    })
+    .unwrap_or_else(|_| "panic".to_string());
+    let tab = |t: &Vec<Vec<(usize, usize)>>| -> String {
+        let mut u = vec![t.len().to_string()];
+        for ins in t {
+            u.push(ins.len().to_string());
+            u.extend(ins.iter().map(|(k, v)| format!("{} {}", k, v)));
+        }
+        u.join(" ")
+    };
+    let mut t: Vec<String> = vec!["graph".into(), if consistent { "consistent" } else { "arbitrary" }.into()];
+    t.push(tab(&r.adj));
+    t.push(tab(&r.rev));
+    t.push(r.edges.len().to_string());
+    t.extend(r.edges.iter().map(|(i, s, d, x)| format!("{} {} {} {}", i, s, d, x.to_bits())));
+    t.push(r.vertices.len().to_string());
+    t.extend(r.vertices.iter().map(|(i, x, y)| format!("{} {} {}", i, (*x as f64).to_bits(), (*y as f64).to_bits())));
+    let line = t.join(" ");
+    ctx.emit(idx, line.clone(), out.clone());
+    ctx.count(if consistent { "graph-value/consistent" } else { "graph-value/arbitrary" });
+    for tag in [" ne", " nv"] {
+        if out.contains(tag) {
+            ctx.count(&format!("graph-value/error-arm{}", tag.replace(' ', "-")));
+        }
+    }
+    ctx.nontrivial(&line);
+    if out == "panic" {
+        ctx.fail(idx, "graph/accessor-panic", "an accessor of Graph panicked".into());
+    } else {
+        let want = r.out();
+        if want != out {
+            let a: Vec<&str> = want.split(' ').collect();
+            let b: Vec<&str> = out.split(' ').collect();
+            let k = (0..a.len().min(b.len())).find(|&k| a[k] != b[k]).unwrap_or(a.len().min(b.len()));
+            ctx.fail(idx, "graph/accessor", format!("accessor output differs from the reference at token {}: expected …{} got …{}", k, a[k.saturating_sub(6)..(k + 3).min(a.len())].join(" "), b[k.saturating_sub(6)..(k + 3).min(b.len())].join(" ")));
+        }
+    }
+}
+
+// ------------------------------------------------------------------------------------------------
+// DefaultGraphBuilder::build: the graph section of a configuration
+
+fn cfg_err_out(e: &CompassConfigurationError) -> String {
+    use CompassConfigurationError as C;
+    match e {
+        C::ExpectedFieldForComponent(k, p) => format!("cfg field {} {}", hex(k), hex(p)),
+        C::ExpectedFieldWithType(k, t) => format!("cfg type {} {}", hex(k), hex(t)),
+        C::FileNotFoundForComponent(f, k, p) => format!("cfg notfound {} {} {}", hex(f), hex(k), hex(p)),
+        C::SerdeDeserializationError(_) => "cfg serde".to_string(),
+        C::GraphError(n) => format!(
+            "cfg graph {}",
+            match n {
+                NetworkError::IOError { .. } => "err io",
+                NetworkError::DatasetError(_) => "err dataset",
+                NetworkError::CsvError { .. } => "err csv",
+                _ => "err other",
+            }
+        ),
+        _ => "cfg other".to_string(),
+    }
+}
+
+fn run_build_case(ctx: &mut Ctx, idx: usize, dir: &Path, rng: &mut Rng, mutation: usize) {
+    use serde_json::{json, Value};
+    // files: mostly well-formed, sometimes malformed (the loader's errors must come through)
+    let mut case = if mutation == 1 {
+        let which = MALFORMED[rng.below(MALFORMED.len())];
+        gen_malformed(rng, which)
+    } else {
+        gen_well_formed(rng, false)
+    };
+    case.e_enc.nonutf8_name = false;
+    case.v_enc.nonutf8_name = false;
+    let tag = format!("b{}", idx);
+    let w = write_case(dir, &tag, rng, &case, case.e_enc.gz, case.v_enc.gz);
+    let mut obj = serde_json::Map::new();
+    // keys in a random order, with bystanders
+    let mut keys: Vec<&str> = vec!["edge_list_input_file", "vertex_list_input_file", "n_edges", "n_vertices", "verbose", "comment"];
+    rng.shuffle(&mut keys);
+    for k in keys {
+        match k {
+            "edge_list_input_file" => {
+                obj.insert(k.into(), json!(w.e_path.to_string_lossy()));
+            }
+            "vertex_list_input_file" => {
+                obj.insert(k.into(), json!(w.v_path.to_string_lossy()));
+            }
+            "n_edges" => {
+                if let Some(n) = case.n_e {
+                    obj.insert(k.into(), json!(n));
+                }
+            }
+            "n_vertices" => {
+                if let Some(n) = case.n_v {
+                    obj.insert(k.into(), json!(n));
+                }
+            }
+            "verbose" => {
+                if let Some(b) = case.verbose {
+                    obj.insert(k.into(), json!(b));
+                }
+            }
+            _ => {
+                if rng.chance(1, 2) {
+                    obj.insert(k.into(), json!("bystander"));
+                }
+            }
+        }
+    }
+    // what is wrong with the configuration (None: nothing)
+    let mut wrong: Option<&'static str> = None; // the key an error must name
+    let mut invalid = false;
+    let wrong_values = |rng: &mut Rng| -> Value {
+        match rng.below(7) {
+            0 => Value::Null,
+            1 => json!(17),
+            2 => json!(true),
+            3 => json!(["a.csv"]),
+            4 => json!({"file": "a.csv"}),
+            5 => json!(2.5),
+            _ => json!(-1),
+        }
+    };
+    let mut params = Value::Object(obj);
+    match mutation {
+        2 | 3 => {
+            // a required key is missing / has the wrong type
+            let k = if rng.chance(1, 2) { "edge_list_input_file" } else { "vertex_list_input_file" };
+            if mutation == 2 {
+                params.as_object_mut().unwrap().shift_remove(k);
+            } else {
+                let v = wrong_values(rng);
+                params.as_object_mut().unwrap().insert(k.into(), v);
+            }
+            wrong = Some(k);
+            invalid = true;
+            // when both are wrong the first one checked is reported
+            if rng.chance(1, 4) {
+                params.as_object_mut().unwrap().shift_remove("edge_list_input_file");
+                wrong = Some("edge_list_input_file");
+            }
+        }
+        4 => {
+            // the path is not a file: it does not exist, is a directory, or is the empty string
+            let k = if rng.chance(1, 2) { "edge_list_input_file" } else { "vertex_list_input_file" };
+            let p = match rng.below(3) {
+                0 => dir.join(format!("{}_nowhere.csv", tag)).to_string_lossy().to_string(),
+                1 => dir.to_string_lossy().to_string(),
+                _ => String::new(),
+            };
+            params.as_object_mut().unwrap().insert(k.into(), json!(p));
+            wrong = Some(k);
+            invalid = true;
+        }
+        5 => {
+            // a count / the verbose flag of the wrong type
+            let k = ["n_edges", "n_vertices", "verbose"][rng.below(3)];
+            let v = if k == "verbose" {
+                [Value::Null, json!("true"), json!(1), json!([true])][rng.below(4)].clone()
+            } else {
+                [Value::Null, json!("12"), json!(-3), json!(2.0), json!(1e30), json!([3]), json!(true)][rng.below(7)].clone()
+            };
+            params.as_object_mut().unwrap().insert(k.into(), v);
+            invalid = true;
+        }
+        6 => {
+            // the section is not an object at all
+            params = [Value::Null, json!([]), json!("graph"), json!(3), json!([{"edge_list_input_file": "a"}])][rng.below(5)].clone();
+            wrong = Some("edge_list_input_file");
+            invalid = true;
+        }
+        7 => {
+            // explicit counts that disagree with the files
+            let ne = case.edges.len();
+            let nv = case.vertices.len();
+            let o = params.as_object_mut().unwrap();
+            match rng.below(4) {
+                0 => {
+                    o.insert("n_edges".into(), json!(ne + 1 + rng.below(50)));
+                }
+                1 => {
+                    o.insert("n_edges".into(), json!(rng.below(ne + 1)));
+                }
+                2 => {
+                    o.insert("n_vertices".into(), json!(nv + 1 + rng.below(50)));
+                }
+                _ => {
+                    o.insert("n_vertices".into(), json!(rng.below(nv + 1)));
+                }
+            }
+        }
+        _ => {}
+    }
+    let p2 = params.clone();
+    let res = std::panic::catch_unwind(move || DefaultGraphBuilder::build(&p2));
+    let out = match &res {
+        Err(_) => "panic".to_string(),
+        Ok(Err(e)) => cfg_err_out(e),
+        Ok(Ok(g)) => graph_out(g),
+    };
+    let is_file = |k: &str| -> bool { params.get(k).and_then(|v| v.as_str()).map(|s| Path::new(s).is_file()).unwrap_or(false) };
+    let mut t: Vec<String> = vec!["build".into(), enc(&params)];
+    t.push(if is_file("edge_list_input_file") { "1" } else { "0" }.into());
+    t.push(if is_file("vertex_list_input_file") { "1" } else { "0" }.into());
+    t.extend(file_spec_tokens(&case, &w));
+    let line = t.join(" ");
+    ctx.emit(idx, line.clone(), out.clone());
+    ctx.count(&format!(
+        "builder/{}",
+        ["valid", "malformed-files", "required-key-missing", "required-key-wrong-type", "path-not-a-file", "count-or-flag-wrong-type", "section-not-an-object", "counts-disagree-with-files"][mutation]
+    ));
+    ctx.nontrivial(&line);
+    // oracle
+    match &res {
+        Err(_) => ctx.fail(idx, "graph_builder/panic", "DefaultGraphBuilder::build panicked".into()),
+        Ok(Err(e)) => {
+            let text = e.to_string();
+            if let Some(k) = wrong {
+                if !text.contains(k) {
+                    ctx.fail(idx, "graph_builder/error-names-wrong-field", format!("the configuration is wrong at '{}' but the error says: {}", k, text.replace('\n', " ")));
+                }
+            } else if !invalid && mutation != 1 && mutation != 7 {
+                ctx.fail(idx, "graph_builder/load-error", format!("valid configuration and files rejected: {}", text.replace('\n', " ")));
+            }
+        }
+        Ok(Ok(g)) => {
+            if invalid {
+                ctx.fail(idx, "graph_builder/invalid-config-accepted", format!("the configuration is invalid ({}) but a graph was built", params));
+            } else if mutation == 0 || mutation == 7 {
+                if let Some((aspect, msg)) = check_by_id(g, &case.edges, &case.vertices) {
+                    ctx.fail(idx, &format!("graph_builder/{}", aspect), msg);
+                }
+            }
+        }
+    }
+    let _ = std::fs::remove_file(&w.e_path);
+    let _ = std::fs::remove_file(&w.v_path);
+}
+
+// ------------------------------------------------------------------------------------------------
+// the hand-written Deserialize of Vertex, entry by entry
+
+fn classify_vertex_error(msg: &str) -> &'static str {
+    if msg.contains("unable to parse vertex_id") {
+        "err parse-id"
+    } else if msg.contains("unable to parse x") {
+        "err parse-x"
+    } else if msg.contains("unable to parse y") {
+        "err parse-y"
+    } else if msg.contains("failed to deserialize Vertex") {
+        "err incomplete"
+    } else if msg.contains("expected a vertex_id, x, and y field") {
+        "err not-map"
+    } else if msg.contains("invalid type") {
+        "err entry"
+    } else if msg.contains("trailing") || msg.contains("expected `,` or `}`") || msg.contains("fewer elements") {
+        "err trailing"
+    } else {
+        "err other"
+    }
+}
+
+fn run_vrow_case(ctx: &mut Ctx, idx: usize, dir: &Path, rng: &mut Rng, format: usize) {
+    // format 0: csv with a header row; 1: csv without (the deserializer offers a sequence); 2: a JSON object;
+    // 3: JSON that is not an object
+    let key_pool = ["vertex_id", "x", "y", "z", "name", "X", "Y", "vertex", "id", "x ", " y", "vertex_id"];
+    let int_pool = ["0", "17", "+4", "007", "4294967296", "-1", "1.5", "abc", "", "18446744073709551616"];
+    let flt_pool = ["1.5", "-105.25", "39", "NaN", "inf", "-inf", "1e39", "1e-50", "+2.5", ".5", "5.", "abc", "", "1.5f", "0x10"];
+    let tidy = rng.chance(1, 2); // exactly the three columns plus bystanders, all cells parseable
+    let mut entries: Vec<(String, String, bool)> = vec![]; // key, cell text, readable as a pair of strings
+    if tidy {
+        entries.push(("vertex_id".into(), int_pool[rng.below(5)].into(), true));
+        entries.push(("x".into(), flt_pool[rng.below(11)].into(), true));
+        entries.push(("y".into(), flt_pool[rng.below(11)].into(), true));
+        for k in 0..rng.below(4) {
+            let cell = if rng.chance(1, 2) { flt_pool[rng.below(flt_pool.len())] } else { "some text" };
+            entries.push((["z", "name", "X", "comment"][k].into(), cell.into(), true));
+        }
+        rng.shuffle(&mut entries);
+    } else {
+        let n = 2 + rng.below(6);
+        for _ in 0..n {
+            let k = key_pool[rng.below(key_pool.len())];
+            let cell = match k {
+                "vertex_id" => int_pool[rng.below(int_pool.len())],
+                _ => flt_pool[rng.below(flt_pool.len())],
+            };
+            entries.push((k.into(), cell.into(), !(format == 2 && rng.chance(1, 8))));
+        }
+    }
+    let pad = format == 0 && rng.chance(1, 4);
+    let (result, not_map): (Result<Result<Option<Vertex>, String>, ()>, bool) = match format {
+        0 | 1 => {
+            let path = dir.join(format!("v{}_row.csv", idx));
+            let header: Vec<String> = entries.iter().map(|e| e.0.clone()).collect();
+            let cells: Vec<String> = entries.iter().map(|e| if pad { format!(" {}  ", e.1) } else { e.1.clone() }).collect();
+            let text = if format == 0 { format!("{}\n{}\n", header.join(","), cells.join(",")) } else { format!("{}\n", cells.join(",")) };
+            write_bytes(&path, text.as_bytes());
+            let p2 = path.clone();
+            let r = std::panic::catch_unwind(move || {
+                read_utils::from_csv::<Vertex>(&p2, format == 0, None).map(|b| b.first().copied()).map_err(|e| e.to_string())
+            })
+            .map_err(|_| ());
+            let _ = std::fs::remove_file(&path);
+            (r, format == 1)
+        }
+        2 => {
+            let body: Vec<String> = entries
+                .iter()
+                .map(|(k, c, ok)| if *ok { format!("\"{}\":\"{}\"", k, c) } else { format!("\"{}\":{}", k, [ "1", "null", "true", "[]", "1.5"][rng.below(5)]) })
+                .collect();
+            let text = format!("{{{}}}", body.join(","));
+            let r = std::panic::catch_unwind(move || serde_json::from_str::<Vertex>(&text).map(Some).map_err(|e| e.to_string())).map_err(|_| ());
+            (r, false)
+        }
+        _ => {
+            let text = ["[\"0\",\"1\",\"2\"]", "\"vertex\"", "3", "null", "true"][rng.below(5)].to_string();
+            let r = std::panic::catch_unwind(move || serde_json::from_str::<Vertex>(&text).map(Some).map_err(|e| e.to_string())).map_err(|_| ());
+            (r, true)
+        }
+    };
+    let out = match &result {
+        Err(_) => "panic".to_string(),
+        Ok(Err(m)) => classify_vertex_error(m).to_string(),
+        Ok(Ok(None)) => "none".to_string(),
+        Ok(Ok(Some(v))) => format!("ok {}", vertex_out(v)),
+    };
+    // what the standard parsers make of a cell (the csv reader trims the fields, not the header)
+    let seen = |c: &str| -> String { if format == 0 { c.trim().to_string() } else { c.to_string() } };
+    let mut t: Vec<String> = vec!["vrow".into(), ["csv-header", "csv-no-header", "json", "json-not-object"][format].into()];
+    t.push(if format >= 2 { "1" } else { "0" }.into());
+    if not_map {
+        t.push("n".into());
+    } else {
+        t.push("s".into());
+        t.push(entries.len().to_string());
+        for (k, c, ok) in &entries {
+            if !*ok {
+                t.push("e".into());
+                continue;
+            }
+            let c = seen(c);
+            t.push(format!(
+                "k {} {} {}",
+                hex(k),
+                match c.parse::<usize>() {
+                    Ok(n) => format!("s {}", n),
+                    Err(_) => "n".into(),
+                },
+                match c.parse::<f32>() {
+                    Ok(x) => format!("s {}", (x as f64).to_bits()),
+                    Err(_) => "n".into(),
+                }
+            ));
+        }
+    }
+    let line = t.join(" ");
+    ctx.emit(idx, line.clone(), out.clone());
+    ctx.count(&format!("vertex-row/{}", ["csv-header", "csv-no-header", "json", "json-not-object"][format]));
+    ctx.count(&format!("vertex-row-outcome/{}", out.split(' ').take(2).collect::<Vec<_>>().join("-").replace("ok-", "ok ").split(' ').next().unwrap_or("")));
+    ctx.nontrivial(&line);
+    // oracle: with exactly one vertex_id, x and y column, all parseable, the vertex is the listed one in any
+    // column order and with any bystander columns (csv); an unparseable one among them is an error
+    if format == 0 {
+        let named = |k: &str| -> Vec<&(String, String, bool)> { entries.iter().filter(|e| e.0 == k).collect() };
+        let (i, x, y) = (named("vertex_id"), named("x"), named("y"));
+        if i.len() == 1 && x.len() == 1 && y.len() == 1 {
+            let pi = i[0].1.trim().parse::<usize>();
+            let px = x[0].1.trim().parse::<f32>();
+            let py = y[0].1.trim().parse::<f32>();
+            match (&result, pi, px, py) {
+                (Ok(Ok(Some(v))), Ok(pi), Ok(px), Ok(py)) => {
+                    if v.vertex_id.0 != pi || v.x().to_bits() != px.to_bits() || v.y().to_bits() != py.to_bits() {
+                        ctx.fail(idx, "vertex/column-order", format!("columns {:?}: decoded {} but the row lists ({}, {}, {})", entries, v, pi, px, py));
+                    }
+                }
+                (Ok(Ok(Some(v))), _, _, _) => ctx.fail(idx, "vertex/unparseable-cell-accepted", format!("columns {:?}: decoded {}", entries, v)),
+                (Ok(Err(m)), Ok(_), Ok(_), Ok(_)) => ctx.fail(idx, "vertex/column-order", format!("columns {:?}: rejected: {}", entries, m)),
+                (Err(_), _, _, _) => ctx.fail(idx, "vertex/panic", "the Vertex deserializer panicked".into()),
+                _ => {}
+            }
+        }
+    }
+    if out == "err other" {
+        ctx.fail(idx, "vertex/unclassified-error", format!("{:?}", result));
+    }
+}
+
+fn run_ctor_cases(ctx: &mut Ctx, rng_seed: u64) {
+    for k in 0..6 {
+        let Some(idx) = ctx.begin() else { continue };
+        let mut rng = Rng::for_case(rng_seed, 15, idx as u64);
+        match k % 3 {
+            0 => {
+                let (i, s, d, x) = (rng.below(1000), rng.below(1000), rng.below(1000), nice_dist(&mut rng));
+                let e = Edge::new(i, s, d, x);
+                ctx.emit(idx, format!("ctor edge {} {} {} {}", i, s, d, x.to_bits()), edge_out(&e));
+                if e.edge_id.0 != i || e.src_vertex_id.0 != s || e.dst_vertex_id.0 != d || e.distance.as_f64().to_bits() != x.to_bits() {
+                    ctx.fail(idx, "edge/new", format!("Edge::new({}, {}, {}, {}) = {:?}", i, s, d, x, e));
+                }
+            }
+            1 => {
+                let e = Edge::default();
+                ctx.emit(idx, "ctor edge-default".to_string(), edge_out(&e));
+                if e.edge_id.0 != 0 || e.src_vertex_id.0 != 0 || e.dst_vertex_id.0 != 1 || e.distance.as_f64() != 1.0 {
+                    ctx.fail(idx, "edge/default", format!("Edge::default() = {:?}", e));
+                }
+            }
+            _ => {
+                let (x, y) = coord(&mut rng);
+                let i = rng.below(1000);
+                let v = Vertex::new(i, x, y);
+                let (tx, ty) = v.to_tuple_underlying();
+                ctx.emit(
+                    idx,
+                    format!("ctor vertex {} {} {}", i, (x as f64).to_bits(), (y as f64).to_bits()),
+                    format!("{} {} {}", vertex_out(&v), fbits(tx as f64), fbits(ty as f64)),
+                );
+                let shown = format!("{}", v);
+                if shown != format!("Vertex {} ({},{})", i, x, y) || tx.to_bits() != x.to_bits() || ty.to_bits() != y.to_bits() {
+                    ctx.fail(idx, "vertex/new-display", format!("Vertex::new({}, {}, {}) shows as {} with tuple ({}, {})", i, x, y, shown, tx, ty));
+                }
+            }
+        }
+        ctx.count("constructors");
     }
 }
 
@@ -1380,12 +2466,31 @@ pub fn run(ctx: &mut Ctx) -> &'static str {
         let case = gen_malformed(&mut rng, MALFORMED[k % MALFORMED.len()]);
         run_load_case(ctx, idx, &dir, &case, &rng);
     }
-    let n_tab = ctx.n(160, 2000);
+    let n_tab = ctx.n(240, 3000);
     for k in 0..n_tab {
         let Some(idx) = ctx.begin() else { continue };
         let mut rng = Rng::for_case(ctx.seed, 15, idx as u64);
-        run_table_case(ctx, idx, &dir, &mut rng, k % 4);
+        run_table_case(ctx, idx, &dir, &mut rng, k % 4, (k / 4) % 10);
     }
+    let n_graph = ctx.n(300, 6000);
+    for k in 0..n_graph {
+        let Some(idx) = ctx.begin() else { continue };
+        let mut rng = Rng::for_case(ctx.seed, 15, idx as u64);
+        run_graph_case(ctx, idx, &mut rng, k % 4 == 0);
+    }
+    let n_build = ctx.n(240, 3200);
+    for k in 0..n_build {
+        let Some(idx) = ctx.begin() else { continue };
+        let mut rng = Rng::for_case(ctx.seed, 15, idx as u64);
+        run_build_case(ctx, idx, &dir, &mut rng, k % 8);
+    }
+    let n_vrow = ctx.n(600, 12000);
+    for k in 0..n_vrow {
+        let Some(idx) = ctx.begin() else { continue };
+        let mut rng = Rng::for_case(ctx.seed, 15, idx as u64);
+        run_vrow_case(ctx, idx, &dir, &mut rng, [0, 0, 0, 2, 0, 2, 1, 3][k % 8]);
+    }
+    run_ctor_cases(ctx, ctx.seed);
     let _ = std::fs::remove_dir_all(&dir);
-    "edge/vertex CSV files written by the harness (plain and gzip; permuted and extra columns in both files, padding, quoting, CRLF, missing final newline, trailing blank lines; vertex degrees 0-12 and above, parallel edges, self loops, isolated vertices; explicit and scanned counts) loaded with the real Graph::from_files, every accessor printed for every edge/vertex id and one id beyond each range; 18 kinds of malformed input (ids not row numbers, endpoints without vertex, wrong declared counts, missing column, undecodable cell, short row, missing or empty file, lone-CR line endings, compression not matching the file name); per-edge tables (speed, grade, road class, heading) read by the real readers; non-trivial = a network with at least one edge, a malformed input, or a table; distinct by full case text"
+    "edge/vertex CSV files written by the harness (plain and gzip with one or several members; BOM; permuted and extra columns in both files, padding, quoting, CRLF, missing final newline, trailing blank lines, embedded newlines; lengths and coordinates that are NaN, infinite, negative, zero, out of the f32 range or spelt differently; vertex degrees 0-12 and above, parallel edges, self loops, isolated vertices; explicit and scanned counts; verbose on/off) loaded with the real Graph::from_files, every accessor printed for every edge/vertex id and one id beyond each range; 20 kinds of malformed input (ids not row numbers or at the top of the usize range, endpoints without vertex, wrong declared counts, missing column, undecodable cell, short row, missing or empty file, gzip cut short in its header / first block / body / trailer, lone-CR line endings, compression not matching the file name); Graph values assembled field by field (inconsistent on purpose) for every accessor and error arm; DefaultGraphBuilder::build over configuration sections (valid, keys missing or ill-typed, paths that are not files, ill-typed counts, non-object sections, counts disagreeing with the files); the Vertex deserializer entry by entry (csv with and without header row, JSON); constructors; per-edge tables (speed, grade, road class, heading) read by the real readers with and without callback, with undecodable rows, bytes that are not UTF-8, truncated and multi-member gzip, missing files; non-trivial = a network with at least one edge, a malformed input, a Graph value, a configuration, a vertex row, or a table; distinct by full case text"
 }
